@@ -73,7 +73,7 @@ mut('c10-revert-F3', 'C10', F, "        next_index = max(np.searchsorted(times, 
 mut('c10-revert-F4', 'C10', F, "        while measurement_times[measurement_time_index] < next_time:\n            measurement_time = measurement_times[measurement_time_index]\n            pva = _interpolate_pva(",
     "        measurement_time = measurement_times[measurement_time_index]\n        if measurement_time < next_time:\n            pva = _interpolate_pva(", "revert fix F4")
 mut('c10-side-left', 'C10', F, "np.searchsorted(times, next_time, side='right') - 1", "np.searchsorted(times, next_time, side='left') - 1",
-    "searchsorted side left: steps stop one row early")
+    "EQUIVALENT for C10: steps merely stop one row early when the target falls on a row; every clause still holds and the sample is still applied at its own row")
 mut('c10-due-le', 'C10', F, "        while measurement_times[measurement_time_index] < next_time:",
     "        while measurement_times[measurement_time_index] <= next_time:", "sample on the next row consumed one interval early")
 mut('c10-overshoot', 'C10', F, "        next_index = max(np.searchsorted(times, next_time, side='right') - 1,\n                         index + 1)",
@@ -109,9 +109,9 @@ mut('c12-ff-no-reset', 'C12', F, "        gyro_model = inertial_sensor.Estimatio
     "        gyro_model = inertial_sensor.EstimationModel()\n\n    if accel_model is None:", "EQUIVALENT mutant: the feedforward filter never reads the estimates, and the feedback filter resets them itself")
 # ---- C13
 mut('c13-revert-F5', 'C13', S, "        if not self.with_altitude:\n            pva = pva.copy()\n            pva.VD = 0.0\n        self.lla[i]", "        self.lla[i]", "revert fix F5")
-mut('c13-kernel-vd', 'C13', N, "        else:\n            velocity_n[j + 1, 2] = 0.0", "        else:\n            velocity_n[j + 1, 2] = V3", "kernel keeps VD instead of zeroing it")
+mut('c13-kernel-vd', 'C13', N, "        else:\n            velocity_n[j + 1, 2] = 0.0", "        else:\n            velocity_n[j + 1, 2] = V3", "EQUIVALENT today: constructor and set_pva both zero VD, so the kernel only ever sees VD = 0 (one of three cooperating sites)")
 mut('c13-ctor-vd', 'C13', S, "        if not with_altitude:\n            self.initial_pva.VD = 0.0\n", "", "constructor keeps VD")
-mut('c13-correct-vd', 'C13', E, "        if not self.with_altitude:\n            velocity_n[2] = pva.VD\n", "", "2-D correction lets VD change")
+mut('c13-correct-vd', 'C13', E, "        if not self.with_altitude:\n            velocity_n[2] = pva.VD\n", "", "EQUIVALENT for C13 since fix F5: set_pva zeroes the second-order VD that correct_pva would leave (it is C05 that speaks about correct_pva itself)")
 mut('c13-position-rows', 'C13', ME, "        H = error_model.position_error_jacobian(pva, self.imu_to_antenna_b)\n        R = self.R\n        if not error_model.with_altitude:\n            z = z[:2]\n            H = H[:2]\n            R = R[:2, :2]",
     "        H = error_model.position_error_jacobian(pva, self.imu_to_antenna_b)\n        R = self.R\n        if not error_model.with_altitude and False:\n            z = z[:2]\n            H = H[:2]\n            R = R[:2, :2]", "Position keeps three rows in 2-D")
 mut('c13-alt-correction', 'C13', E, "        if not self.with_altitude:\n            x = self._transform_3d_2d(pva.VN, pva.VE) @ x",
